@@ -76,3 +76,33 @@ fn s_cache_scenario() {
 instances! {
     c02_s_cache_scenario => s_cache_scenario();
 }
+
+// ---- AssetCache's own hot-reloading entry points (feature hot-reloading) -------------------------------------------------------
+#[cfg(all(kani, feature = "hot-reloading"))]
+mod hot {
+    use super::*;
+    use crate::hot_reloading::amv_h::{add_asset_rec, clear_rec, ev_send_rec, make_reloader, reload_rec, send_static_rec, NCLEAR, NRELOAD, NSTATIC};
+    use crate::hot_reloading::{EventSender, HotReloader};
+
+    #[kani::proof]
+    #[kani::unwind(10)]
+    #[kani::stub(crate::error::ErrorKind::or, crate::amv::common::or_contract)]
+    #[kani::stub(HotReloader::add_asset, add_asset_rec)]
+    #[kani::stub(HotReloader::clear, clear_rec)]
+    #[kani::stub(HotReloader::reload, reload_rec)]
+    #[kani::stub(HotReloader::send_static, send_static_rec)]
+    #[kani::stub(EventSender::send, ev_send_rec)]
+    #[kani::stub(std::thread::available_parallelism, crate::amv::common::par1)]
+    pub(crate) fn c05_k10_cache_entry_points() {
+        let with: bool = nd();
+        let mut c = AssetCache { reloader: if with { Some(make_reloader()) } else { None }, assets: AssetMap::new(), source: crate::source::Empty };
+        assert!(c.as_any_cache().is_hot_reloaded() == with, "C10 a cache is hot-reloaded iff it has a reloader");
+        c.hot_reload();
+        unsafe { assert!(NRELOAD == with as usize, "C07 hot_reload asks the reloader (if any) to reload this cache's map; without reloader it is a no-op") };
+        c.clear();
+        unsafe { assert!(NCLEAR == with as usize, "C10 clear tells the reloader (if any)") };
+        let cs: &'static AssetCache<crate::source::Empty> = Box::leak(Box::new(c));
+        cs.enhance_hot_reloading();
+        unsafe { assert!(NSTATIC == with as usize, "C05 enhance_hot_reloading hands the static reference over (if there is a reloader)") };
+    }
+}
